@@ -99,6 +99,9 @@ func checkProducerConsumer(r *Run, prog *Program, a *Anchors, ga *GA, pfx string
 	exprT := prog.grammarType("Expression")
 	fn := a.Dispatch
 	pNode := paramSym(fn.Params[0])
+	if nP, _, _ := evalParams(fn); nP != nil {
+		pNode = paramSym(nP)
+	}
 	for _, impl := range ga.implementers(exprT.Underlying().(*types.Interface)) {
 		tn := strings.TrimPrefix(impl, "*")
 		nt := prog.grammarType(tn)
